@@ -351,3 +351,43 @@ def run(facts, rep, tier):
     rule_r2(facts, rep)
     rule_r3(facts, rep)
     rule_r4(facts, rep)
+    rep.rule("C10-R5", "= C15-R1 restricted to the three conversion actions: the rewritten note is rendered with to_markdown(&<its own key>.parent(), <configured options>), so block references keep "
+                       "resolving and a second application starts from the same text.")
+    from . import c15
+    c15.rule_r1(facts, _Conv(rep), "C10-R5")
+
+
+class _Conv:
+    """Forwards only the instances located in the list/section conversion actions."""
+    NAMES = ("ListChangeType", "ListToSections", "SectionToList")
+
+    def __init__(self, rep):
+        self.rep = rep
+        self.stats = rep.stats
+
+    def _keep(self, key):
+        return any(n in key for n in self.NAMES)
+
+    def ok(self, rule, key, detail="", loc=None, nontrivial=True):
+        if self._keep(key):
+            self.rep.ok(rule, key, detail, loc, nontrivial)
+
+    def violation(self, rule, key, detail, loc=None):
+        if self._keep(key):
+            self.rep.violation(rule, key, detail, loc)
+
+    def undecided(self, rule, key, detail, loc=None):
+        if self._keep(key):
+            self.rep.undecided(rule, key, detail, loc)
+
+    def floor(self, *a, **k):
+        pass
+
+    def anchor_missing(self, rule, what):
+        self.rep.anchor_missing(rule, what)
+
+    def saw_fn(self, fn):
+        self.rep.saw_fn(fn)
+
+    def rule(self, rid, text):
+        pass
